@@ -526,10 +526,16 @@ func injectRequestMeta[T any, P interface {
 	Params
 }](cs *ClientSession, params P) P {
 	res := cs.state.InitializeResult
+	// The params are the caller's: work on a copy (of the struct and of its
+	// _meta map), so that a value reused for another call, or on another
+	// session, does not carry this session's version and identity along.
 	if params == nil {
 		params = new(T)
+	} else {
+		cp := *params
+		params = &cp
 	}
-	m := params.GetMeta()
+	m := maps.Clone(params.GetMeta())
 	if m == nil {
 		m = map[string]any{}
 	}
